@@ -4,6 +4,7 @@ package main
 // R-P-MONOTONE, R-EXACT-REGIME.
 
 import (
+	"os"
 	"fmt"
 	"go/constant"
 	"go/token"
@@ -27,6 +28,7 @@ const (
 type ival struct {
 	lo, hi int
 	bot    bool
+	mem    int8 // whether the tracked element (the method's own argument) is in the buffer: 0 unknown, 1 yes, 2 no
 }
 
 func (a ival) join(b ival) ival {
@@ -42,6 +44,9 @@ func (a ival) join(b ival) ival {
 	}
 	if b.hi > r.hi {
 		r.hi = b.hi
+	}
+	if a.mem != b.mem {
+		r.mem = 0
 	}
 	return r
 }
@@ -157,6 +162,36 @@ type counterModel struct {
 	unknownBufEvents []string
 	methods          map[*ssa.Function]bool
 	depth            int
+	outState         map[*ssa.BasicBlock]ival // δ after each block in the last top-level analysis (when asked for)
+}
+
+// isMembershipTest: a two-parameter bool method that returns exactly the comma-ok of looking its argument up
+// in a map (mapset's Has).
+func isMembershipTest(fn *ssa.Function) bool {
+	fn = origin(fn)
+	if fn == nil || fn.Blocks == nil || len(fn.Params) != 2 {
+		return false
+	}
+	var lk *ssa.Lookup
+	n := 0
+	good := true
+	allInstrs(fn, func(in ssa.Instruction) {
+		switch x := in.(type) {
+		case *ssa.Lookup:
+			if x.CommaOk && x.Index == ssa.Value(fn.Params[1]) {
+				lk = x
+			}
+		case *ssa.Return:
+			n++
+			ex, ok := x.Results[0].(*ssa.Extract)
+			if len(x.Results) != 1 || !ok || ex.Index != 1 || lk == nil || ex.Tuple != ssa.Value(lk) {
+				good = false
+			}
+		case *ssa.MapUpdate, *ssa.Store, ssa.CallInstruction:
+			good = false
+		}
+	})
+	return good && n > 0 && lk != nil
 }
 
 // recvHelper: call is a static call, from method fn, of another Counter method on the same receiver.
@@ -405,50 +440,77 @@ func variadicCount(call *ssa.Call) int {
 // analyse runs the interval analysis of δ = |buf| - cap over fn; returns the
 // join of δ at all normal returns, and a description of the worst exit.
 func (m *counterModel) analyse(fn *ssa.Function, entry ival) (ival, string) {
-	in := map[*ssa.BasicBlock]ival{}
-	for _, b := range fn.Blocks {
-		in[b] = ival{bot: true}
-	}
-	in[fn.Blocks[0]] = entry
 	visits := map[*ssa.BasicBlock]int{}
 	exit := ival{bot: true}
 	worst := ""
+	// the tracked element: the method's own (single) argument
+	var tv ssa.Value
+	if len(fn.Params) == 2 && m.depth == 0 {
+		tv = fn.Params[1]
+	}
+	onlyTracked := func(elems []ssa.Value) bool {
+		return tv != nil && len(elems) == 1 && elems[0] == tv
+	}
 	transfer := func(b *ssa.BasicBlock, s ival) ival {
 		for _, ins := range b.Instrs {
 			if call, ok := ins.(*ssa.Call); ok {
 				if h := m.recvHelper(call, fn); h != nil && m.depth < 4 {
 					// a helper method on the same counter: its effect on δ is its own exit interval
 					m.depth++
-					ex, _ := m.analyse(h, s)
+					hs := s
+					hs.mem = 0
+					ex, _ := m.analyse(h, hs)
 					m.depth--
 					if ex.bot {
 						return ival{bot: true}
 					}
 					s = ex
+					s.mem = 0
 					continue
 				}
 			}
-			e, k, _, _, ok := m.bufEvent(ins)
+			e, k, _, elems, ok := m.bufEvent(ins)
 			if !ok {
 				continue
 			}
 			switch {
 			case e.empties && !e.grows:
 				s.lo, s.hi = negInf, -1 // |buf| = 0 and cap >= 1
+				s.mem = 2
 			case e.grows && !e.shrinks:
-				if k == posInf {
+				switch {
+				case k == 1 && onlyTracked(elems) && s.mem == 1:
+					// already there: the set does not grow
+				case k == 1 && onlyTracked(elems) && s.mem == 2:
+					s.lo, s.hi = addSat(s.lo, 1), addSat(s.hi, 1)
+				case k == posInf:
 					s.hi = posInf
-				} else {
+				default:
 					s.hi = addSat(s.hi, k)
 				}
+				if k == 1 && onlyTracked(elems) {
+					s.mem = 1
+				} else if s.mem == 2 {
+					s.mem = 0
+				}
 			case e.shrinks && !e.grows:
-				if k == posInf {
+				switch {
+				case k == 1 && onlyTracked(elems) && s.mem == 1:
+					s.lo, s.hi = addSat(s.lo, -1), addSat(s.hi, -1)
+				case k == 1 && onlyTracked(elems) && s.mem == 2:
+				case k == posInf:
 					s.lo = negInf
-				} else {
+				default:
 					s.lo = addSat(s.lo, -k)
+				}
+				if k == 1 && onlyTracked(elems) {
+					s.mem = 2
+				} else if s.mem == 1 {
+					s.mem = 0
 				}
 			case e.grows && e.shrinks:
 				s.lo, s.hi = negInf, posInf
+				s.mem = 0
 			}
 		}
 		return s
@@ -462,6 +524,17 @@ func (m *counterModel) analyse(fn *ssa.Function, entry ival) (ival, string) {
 			if call, ok := f.Cond.(*ssa.Call); ok {
 				if cal := staticCallee(&call.Call); cal != nil && cal.Name() == "IsEmpty" && len(call.Call.Args) > 0 && m.isBufRecv(call.Call.Args[0]) && f.Truth {
 					s.hi = min(s.hi, -1)
+				}
+				// membership of the tracked element
+				if cal := staticCallee(&call.Call); cal != nil && tv != nil && len(call.Call.Args) == 2 && m.isBufRecv(call.Call.Args[0]) && call.Call.Args[1] == tv && isMembershipTest(cal) {
+					want := int8(2)
+					if f.Truth {
+						want = 1
+					}
+					if s.mem != 0 && s.mem != want {
+						s.lo, s.hi = posInf, negInf // infeasible
+					}
+					s.mem = want
 				}
 				// a predicate method of the counter itself (`for c.isFull() {…}`): its comparisons hold on the true
 				// edge; on the false edge one of them fails (only when they are exactly the predicate)
@@ -494,6 +567,46 @@ func (m *counterModel) analyse(fn *ssa.Function, entry ival) (ival, string) {
 			x, y, op = y, x, flipOp(op)
 		}
 		if !m.isLenOfBuf(x) {
+			// Len ± a against cap ± b:  δ + (a − b) op 0
+			strip := func(v ssa.Value) (ssa.Value, int, bool) {
+				if bo, ok := v.(*ssa.BinOp); ok && (bo.Op == token.ADD || bo.Op == token.SUB) {
+					if k, ok := constInt(bo.Y); ok && k > -1000 && k < 1000 {
+						if bo.Op == token.SUB {
+							k = -k
+						}
+						return bo.X, int(k), true
+					}
+				}
+				return v, 0, false
+			}
+			for _, swap := range []bool{false, true} {
+				xx, yy, oo := x, y, op
+				if swap {
+					xx, yy, oo = y, x, flipOp(op)
+				}
+				lx, a, sx := strip(xx)
+				cy, b2, sy := strip(yy)
+				if !sx && !sy || !m.isLenOfBuf(lx) {
+					continue
+				}
+				if _, f := loadedField(cy); f == nil || !sameField(f, m.capF) {
+					continue
+				}
+				d := a - b2
+				switch oo {
+				case token.GEQ:
+					s.lo = max(s.lo, -d)
+				case token.GTR:
+					s.lo = max(s.lo, 1-d)
+				case token.LSS:
+					s.hi = min(s.hi, -1-d)
+				case token.LEQ:
+					s.hi = min(s.hi, -d)
+				case token.EQL:
+					s.lo, s.hi = max(s.lo, -d), min(s.hi, -d)
+				}
+				return s
+			}
 			return s
 		}
 		if _, f := loadedField(y); f != nil && sameField(f, m.capF) {
@@ -524,12 +637,57 @@ func (m *counterModel) analyse(fn *ssa.Function, entry ival) (ival, string) {
 		}
 		return s
 	}
+	// the state of a block is one interval per knowledge about the tracked element (unknown, present, absent),
+	// so that `room for one more || (room && already there)` keeps the two reasons apart
+	type st3 [3]ival
+	bot3 := st3{{bot: true}, {bot: true, mem: 1}, {bot: true, mem: 2}}
+	put := func(t *st3, v ival) {
+		if v.bot || v.lo > v.hi {
+			return
+		}
+		k := v.mem
+		if t[k].bot {
+			t[k] = v
+		} else {
+			t[k] = t[k].join(v)
+			t[k].mem = k
+		}
+	}
+	flat := func(t st3) ival {
+		r := ival{bot: true}
+		for _, v := range t {
+			if !v.bot {
+				if r.bot {
+					r = v
+				} else {
+					r = r.join(v)
+				}
+			}
+		}
+		return r
+	}
+	in3 := map[*ssa.BasicBlock]st3{}
+	for _, b := range fn.Blocks {
+		in3[b] = bot3
+	}
+	e3 := bot3
+	put(&e3, entry)
+	in3[fn.Blocks[0]] = e3
 	work := []*ssa.BasicBlock{fn.Blocks[0]}
 	for len(work) > 0 {
 		b := work[0]
 		work = work[1:]
 		visits[b]++
-		out := transfer(b, in[b])
+		out3 := bot3
+		for _, v := range in3[b] {
+			if !v.bot {
+				put(&out3, transfer(b, v))
+			}
+		}
+		out := flat(out3)
+		if m.depth == 0 && m.outState != nil {
+			m.outState[b] = out
+		}
 		if out.bot {
 			continue
 		}
@@ -541,27 +699,36 @@ func (m *counterModel) analyse(fn *ssa.Function, entry ival) (ival, string) {
 			exit = exit.join(out)
 		}
 		for i, sc := range b.Succs {
-			o := out
-			if iff, ok := last.(*ssa.If); ok {
-				o = refine(iff, i, o)
+			o3 := bot3
+			for _, o := range out3 {
+				if o.bot {
+					continue
+				}
+				if iff, ok := last.(*ssa.If); ok {
+					o = refine(iff, i, o)
+				}
+				put(&o3, o) // infeasible edges (lo > hi) are dropped
 			}
-			if o.lo > o.hi {
-				continue // infeasible edge
+			nw := in3[sc]
+			for _, o := range o3 {
+				put(&nw, o)
 			}
-			nw := in[sc].join(o)
 			if visits[sc] > 3 {
 				// widening
-				if !in[sc].bot {
-					if nw.hi > in[sc].hi {
-						nw.hi = posInf
-					}
-					if nw.lo < in[sc].lo {
-						nw.lo = negInf
+				for k := range nw {
+					old := in3[sc][k]
+					if !old.bot {
+						if nw[k].hi > old.hi {
+							nw[k].hi = posInf
+						}
+						if nw[k].lo < old.lo {
+							nw[k].lo = negInf
+						}
 					}
 				}
 			}
-			if nw != in[sc] {
-				in[sc] = nw
+			if nw != in3[sc] {
+				in3[sc] = nw
 				work = append(work, sc)
 			}
 		}
@@ -698,6 +865,7 @@ func runC19(c *Ctx) {
 			best, bestK = rs, k
 		}
 	}
+	boundFound, boundK := found, bestK
 	for _, r := range best {
 		c.sawFn(fnName(r.fn))
 		key := fnName(r.fn) + ":exit"
@@ -1045,10 +1213,29 @@ func runC19(c *Ctx) {
 				}
 			})
 		}
+		// Len ≥ cap known from the interval analysis itself (under the invariant R-BUF-BOUND established): some
+		// block on every way to b ends with δ ≥ 0
+		var addOut map[*ssa.BasicBlock]ival
+		if boundFound {
+			m.outState = map[*ssa.BasicBlock]ival{}
+			m.analyse(add, ival{lo: negInf, hi: boundK})
+			addOut = m.outState
+			m.outState = nil
+			if os.Getenv("MDS_DEBUG") != "" {
+				for _, b := range add.Blocks {
+					fmt.Fprintf(os.Stderr, "c19 out b%d (%s) = %s mem=%d\n", b.Index, b.Comment, addOut[b], addOut[b].mem)
+				}
+			}
+		}
 		var inRegime func(b *ssa.BasicBlock, depth int) bool
 		inRegime = func(b *ssa.BasicBlock, depth int) bool {
 			if regime(b) {
 				return true
+			}
+			for d, o := range addOut {
+				if d != b && d.Dominates(b) && !o.bot && o.lo >= 0 && o.lo != posInf {
+					return true
+				}
 			}
 			fn := b.Parent()
 			if fn == add || depth > 4 || len(callers[fn]) == 0 {
